@@ -325,6 +325,24 @@ class ParseBlock(HintVC):
         return "tokens:" + ",".join(t for t, _ in w.get("tokens", []))
 
 
+def parse_block_roles():
+    """names of the two accumulators of _parse_block, read off its return statement `return <names>, concat(<buf>)`,
+    and the names assigned inside its loop (so that renaming a local does not matter)"""
+    import ast as _a
+    from pyvc import extract as X
+    node, _mod = X.function_ast(E.InternationalizationExtension._parse_block)
+    rets = [n for n in _a.walk(node) if isinstance(n, _a.Return)]
+    loops = [n for n in _a.walk(node) if isinstance(n, _a.While)]
+    if len(rets) != 1 or len(loops) != 1:
+        raise Unsupported("_parse_block no longer has one loop and one return statement")
+    v = rets[0].value
+    if not (isinstance(v, _a.Tuple) and len(v.elts) == 2 and isinstance(v.elts[0], _a.Name) and isinstance(v.elts[1], _a.Call)
+            and isinstance(v.elts[1].func, _a.Name) and v.elts[1].func.id == "concat" and len(v.elts[1].args) == 1 and isinstance(v.elts[1].args[0], _a.Name)):
+        raise Unsupported("_parse_block does not end in `return <names>, concat(<buf>)`")
+    assigned = sorted({n.id for n in _a.walk(loops[0]) if isinstance(n, _a.Name) and isinstance(n.ctx, _a.Store)})
+    return v.elts[0].id, v.elts[1].args[0].id, assigned, node
+
+
 class ParseBlockInductive(HintVC):
     """Unbounded form of C33.parse_block: the `while True` loop of the real _parse_block is cut at an invariant.
     Generic loop head: `buf` joined is an arbitrary string B, `referenced` an arbitrary sequence R (what the statement's
@@ -350,6 +368,7 @@ class ParseBlockInductive(HintVC):
         from pyvc.stmts import LoopSpec
         CP.install(I, lambda: self.world, summarise_loops=False)
         c = self
+        v_names, v_buf, assigned, _node = parse_block_roles()
 
         def heap(st, local):
             st.ghost = dict(st.ghost)
@@ -357,9 +376,9 @@ class ParseBlockInductive(HintVC):
             hs = st.get(c.world.stream)
             hs.fields["_idx"] = 0
             hs.fields["current"] = c.script.tok(0)
-            hb = st.get(local["buf"])
+            hb = st.get(local[v_buf])
             hb.items, hb.arr, hb.n = [c.B], None, None
-            hr = st.get(local["referenced"])
+            hr = st.get(local[v_names])
             hr.items, hr.arr, hr.n, hr.k = None, c.R_arr, c.R_n, "str"
 
         def inv(ctx):
@@ -368,7 +387,7 @@ class ParseBlockInductive(HintVC):
             idx = hs.fields["_idx"]
             cur = st.get(hs.fields["current"]).fields
             facts = [CP.type_in(sv(cur["type"]), CP.OUTSIDE)]
-            hb, hr = st.get(ctx.local("buf")), st.get(ctx.local("referenced"))
+            hb, hr = st.get(ctx.local(v_buf)), st.get(ctx.local(v_names))
             if st.ghost.get("c33_phase") != "generic":
                 return facts + [z3.BoolVal(hb.concrete and hb.items == []), z3.BoolVal(hr.concrete and hr.items == [])]
             if idx == 0:
@@ -385,7 +404,7 @@ class ParseBlockInductive(HintVC):
                 z3.Or(data, varok))
             return facts + [step]
 
-        I.loops[("InternationalizationExtension._parse_block", 0)] = LoopSpec(inv, havoc={"name": "str", "block_name": "str"}, heap=heap, name="block_loop")
+        I.loops[("InternationalizationExtension._parse_block", 0)] = LoopSpec(inv, havoc={a: "str" for a in assigned}, heap=heap, name="block_loop")
 
     def step_conds(self):
         t, v = [x.t for x in self.types], [x.t for x in self.values]
@@ -431,12 +450,22 @@ class ParseBlockInductive(HintVC):
 
     posts = [("exit", p_exit)]
 
+    def discharge(self, name, pc, cond, timeout, seed, pre, out):
+        # the loop obligations (invariant at entry / preserved) get a concrete window as witness as well
+        return HintVC.discharge(self, name, pc, cond, timeout, seed, pre if pre is not None else "side", out)
+
     def hints(self):
-        return [[self.values[0].t == S(c), self.B.t == S("")] for c in ("%", "a%%b")]
+        return [[self.values[0].t == S(c), self.B.t == S("")] for c in ("%", "a%%b")] + [[self.R_n == 1]]
 
     def concretize(self, model, pre, out):
         toks = [[model_value(model, t.t), model_value(model, v.t)] for t, v in zip(self.types, self.values)]
-        return {"tokens": toks, "allow_pluralize": self.allow, "text_so_far": model_value(model, self.B.t)}
+        # the accumulated names are replayed as that many `{{ p_i }}` in front of the window
+        k = model_value(model, self.R_n)
+        k = max(0, min(3, k)) if isinstance(k, int) else 0
+        pre_toks = []
+        for i in range(k):
+            pre_toks += [["variable_begin", "{{"], ["name", f"p{i}"], ["variable_end", "}}"]]
+        return {"tokens": pre_toks + toks, "allow_pluralize": self.allow, "text_so_far": model_value(model, self.B.t), "names_so_far": k}
 
     def replay(self, w):
         return replay_parse_block(w)
@@ -451,23 +480,23 @@ def parse_block_buf_usage(task, tier, seed):
     created empty, appended to and joined; `referenced` only created empty, appended to and returned; concat is "".join"""
     import ast as _a
     from pyvc import extract as X
-    node, _mod = X.function_ast(E.InternationalizationExtension._parse_block)
+    v_names, v_buf, _assigned, node = parse_block_roles()
     bad = []
     parents = {}
     for n in _a.walk(node):
         for ch in _a.iter_child_nodes(n):
             parents[ch] = n
     for n in _a.walk(node):
-        if isinstance(n, _a.Name) and n.id in ("buf", "referenced"):
+        if isinstance(n, _a.Name) and n.id in (v_buf, v_names):
             p = parents.get(n)
             ok = False
             if isinstance(n.ctx, _a.Store) and isinstance(p, _a.Assign) and isinstance(p.value, _a.List) and not p.value.elts:
                 ok = True
             elif isinstance(p, _a.Attribute) and p.attr == "append" and isinstance(parents.get(p), _a.Call) and parents[p].func is p:
                 ok = True
-            elif n.id == "buf" and isinstance(p, _a.Call) and isinstance(p.func, _a.Name) and p.func.id == "concat" and p.args == [n]:
+            elif n.id == v_buf and isinstance(p, _a.Call) and isinstance(p.func, _a.Name) and p.func.id == "concat" and p.args == [n]:
                 ok = True
-            elif n.id == "referenced" and isinstance(p, _a.Tuple) and isinstance(parents.get(p), _a.Return):
+            elif n.id == v_names and isinstance(p, _a.Tuple) and isinstance(parents.get(p), _a.Return):
                 ok = True
             if not ok:
                 bad.append(f"{n.id} at line {n.lineno}")
